@@ -106,7 +106,10 @@ def drill(ids, all_checks):
         props = claimed if all_checks else ([prop] if prop in claimed else [])
         try:
             rc, out = sh(['git', 'apply', os.path.join(d, 'patch.diff')], cwd=R)
-            assert rc == 0, 'patch does not apply: ' + out
+            if rc != 0:
+                print('%-10s %s SKIPPED: patch does not apply to the current tree (%s)' % (i, prop, out.strip().splitlines()[0] if out.strip() else ''))
+                sh('git checkout -- .', cwd=R)
+                continue
             row = {}
             for p in props:
                 rc, out = sh([os.path.join(V, 'check'), p], cwd=V)
@@ -128,6 +131,7 @@ def drill(ids, all_checks):
         print('%-10s %s own-check=%s also=%s%s' % (i, prop, status, [p for p in caught if p != prop], flag))
         for p, ks in results[i]['reported'].items():
             print('           %s: %s' % (p, ', '.join(ks)[:300]))
+        json.dump(results, open(resf, 'w'), indent=1, sort_keys=True)
     json.dump(results, open(resf, 'w'), indent=1, sort_keys=True)
     return 1 if bad else 0
 
